@@ -113,9 +113,7 @@ def classItems : Nat → Bytes → List (Nat × Nat) → List (Nat × Nat) × By
   | _, [], acc => (acc, [])
   | _, 93 :: r, acc => (acc, r)
   | f+1, 92 :: c :: r, acc => classItems f r ((c, c) :: acc)
-  | f+1, a :: 45 :: b :: r, acc =>
-      if b = 93 then classItems f (45 :: b :: r) ((a, a) :: acc)
-      else classItems f r ((min a b, max a b) :: acc)
+  | f+1, a :: 45 :: b :: r, acc => classItems f r ((min a b, max a b) :: acc)   -- also `a-]`: a range, as in Redis
   | f+1, a :: r, acc => classItems f r ((a, a) :: acc)
 
 def globF : Nat → Bytes → Bytes → Bool
